@@ -117,6 +117,35 @@ def run_unit(unit_name, tier, seed):
     lines = text.split('\n')
     rlimit = 20 if tier == 'quick' else 40
     res = vlib.run_verus(path, rlimit=rlimit)
+    # resolution error caused by a ghost hint that names a variable the function no longer has: drop those hints
+    # (hints never add assumptions) and retry - the obligations then fail or pass on their own merits
+    import threading, overlay as _ov
+    for _attempt in range(3):
+        if res['status'] != 'tool-error':
+            break
+        idents = set()
+        for d in res['diags']:
+            m = re.search(r'cannot find (?:value|function|type) `(\w+)`', d.get('message', ''))
+            if m:
+                idents.add(m.group(1))
+        if not idents:
+            break
+        tid = threading.get_ident()
+        _ov.DROP[tid] = set(_ov.DROP.get(tid, ())) | idents
+        try:
+            U = vlib.Unit(unit_name)
+            mod.build(U)
+            text, linemap = U.render()
+        except Undecided as e:
+            out['notes'].append('extraction undecided on retry: %s' % e)
+            break
+        finally:
+            pass
+        open(path, 'w').write(text)
+        lines = text.split('\n')
+        out['notes'].append('hints naming missing identifier(s) %s dropped' % sorted(idents))
+        res = vlib.run_verus(path, rlimit=rlimit)
+    _ov.DROP.pop(threading.get_ident(), None)
     out['checker_cmd'] = res['cmd']
     attempts = [res]
     if res['status'] == 'failed':
